@@ -6,9 +6,12 @@
    k_count / index_non_ascii by the guard-page sweep (every length 0..200
    and page-crossing lengths in quick, 0..4352 in thorough; all alignments;
    flush against PROT_NONE pages on either side; surroundings filled with
-   the needle; all 256x256 needle/data combinations per code path), not by
-   a proof: see DESIGN.md 4.C13. *)
-From Strcase Require Import Base Utf8 Spec Kernels.
+   the needle; all 256x256 needle/data combinations per code path) and,
+   for the kernels listed at the end of this file, by a proof about the
+   instruction list that tools/asm2prog.py regenerates from the .s files on
+   every run, executed by the machine model of X86.v: see DESIGN.md 4.C13. *)
+From Strcase Require Import Base Utf8 Spec Kernels X86 X86NonASCII.
+From StrcaseGen Require Import AsmProg.
 
 Theorem C13_index_byte_generic : forall s c, wf s -> 0 <= c < 256 -> index_byte_generic s c = k_index_byte s c.
 Proof. exact index_byte_generic_eq. Qed.
@@ -33,3 +36,28 @@ Example C13_byte_match :
   byte_match 97 65 = true /\ byte_match 65 97 = true /\ byte_match 64 96 = false /\
   byte_match 193 225 = false /\ byte_match 91 123 = false /\ k_count [97; 65; 225; 98] 65 = 2.
 Proof. vm_compute. auto 7. Qed.
+
+(* ---- the amd64 assembly itself (the go1.22+ files, the ones this toolchain assembles) ----
+   IndexNonASCII / IndexByteNonASCII: started with arbitrary register contents at either entry point, for every
+   argument s placed at any address A >= 4096 (any alignment, any position inside its page), every content [junk]
+   of the memory around it, with and without AVX2, the run of the translated instruction list terminates with
+   the result slot holding index_non_ascii s.  Done (rather than Fault) also says: every load stayed inside the
+   pages that hold a byte of s, the only store went to the result slot, no address computation wrapped. *)
+Theorem C13_asm_index_non_ascii : forall A s junk slot avx2 popcnt c r0,
+  4096 <= A -> A + X86.len s < two63 -> wf s ->
+  (exists fuel, X86.run A s junk slot avx2 popcnt c prog_index_non_ascii_go122_amd64 fuel
+                  entry_index_non_ascii_go122_amd64_IndexNonASCII (init r0) = Done (Some (index_non_ascii s))) /\
+  (exists fuel, X86.run A s junk slot avx2 popcnt c prog_index_non_ascii_go122_amd64 fuel
+                  entry_index_non_ascii_go122_amd64_IndexByteNonASCII (init r0) = Done (Some (index_non_ascii s))).
+Proof.
+  intros A s junk slot avx2 popcnt c r0 HA Hl Hw. split.
+  - exact (index_non_ascii_str A s junk slot avx2 popcnt c HA Hl Hw r0).
+  - exact (index_non_ascii_byt A s junk slot avx2 popcnt c HA Hl Hw r0).
+Qed.
+Print Assumptions C13_asm_index_non_ascii.
+
+(* the premises are satisfiable and the machine really runs: a 40-byte argument ending 3 bytes before a page end *)
+Example C13_asm_runs :
+  X86.run 8149 (repeat 97 37 ++ [200; 98; 99]) (fun _ => 255) 64 true true 0 prog_index_non_ascii_go122_amd64 200
+          entry_index_non_ascii_go122_amd64_IndexNonASCII (init (fun _ => 12345)) = Done (Some 37).
+Proof. vm_compute. reflexivity. Qed.
